@@ -17,7 +17,7 @@ def slice (data : Bytes) (offset n : Nat) : Bytes := (data.drop offset).take n
 def sendChunksAux (cmd op : UInt8) (nexts : List UInt8) (data : Bytes) (full : Bool) :
     Nat → Nat → List Resp → LoopRes (Bool × Bytes)
   | offset, req, [] =>
-    (.error .scriptEnd, [CLA :: cmd :: op :: slice data offset req], [])
+    (.error .dongleError, [CLA :: cmd :: op :: slice data offset req], [])
   | offset, req, r :: rest =>
     let toSend := slice data offset req
     let apdu := CLA :: cmd :: op :: toSend
